@@ -35,8 +35,8 @@ Inductive sterm :=
 | SPair (h t : sterm).
 
 Inductive body :=
-| BTrue | BFail | BCut
 | BCall (f : str) (args : list sterm)
+| BTrue | BFail | BCut
 | BMark (label : nat)
 | BAnd (a b : body)
 | BOr (a b : body)
